@@ -5,6 +5,7 @@ mod sim;
 mod wire;
 
 mod s_acks;
+mod s_api;
 mod s_delivery;
 
 use vutil::{Args, Report};
@@ -15,6 +16,10 @@ fn scenarios(id: &str, args: &Args) -> Option<Vec<explore::Scenario>> {
         "C02" => s_delivery::c02(args),
         "C03" => s_acks::c03(args),
         "C04" => s_acks::c04(args),
+        "C28" => s_api::c28(args),
+        "C35" => s_api::c35(args),
+        "C36" => s_api::c36(args),
+        "C37" => s_api::c37(args),
         _ => return None,
     })
 }
